@@ -1,0 +1,17 @@
+//go:build verif
+
+package updater
+
+import "time"
+
+// VerifBackoffUnit replaces the one second unit of the retry backoff (tries*tries units) of
+// fetchFile, fetchMissingSig and fetchData when it is set (build tag verif), so that a conformance
+// harness can exercise the retry paths without waiting for seconds. Zero keeps the normal backoff.
+var VerifBackoffUnit time.Duration
+
+func verifBackoff(tries int) <-chan time.Time {
+	if VerifBackoffUnit <= 0 {
+		return nil
+	}
+	return time.After(time.Duration(tries*tries) * VerifBackoffUnit)
+}
